@@ -11,7 +11,9 @@ reading or writing beyond it."
 The theorems are about `PV.SockAddr` (the transliteration of `psocketaddress.c`, over the facts in
 `PV.Generated.SA` that `tools/extract.py` regenerates from the working tree) and relate it to
 `PV.SockAddr.Spec` (explicit byte layout, byte-wise classification).  Buffers are byte lists of
-exactly the caller's extent; an access outside is the result `Res.fault`.
+exactly the caller's extent; an access outside is the result `Res.fault`.  `NULL` pointer arguments: the
+`…P` functions of the model (`Option` = pointer that may be NULL) and `null_arguments`, `nonnull_arguments`,
+`to_native_false_writes_nothing`.
 
 F7 (DESIGN §5): before the repair `p_socket_address_new_from_native` only rejected `len == 0` before
 reading the two-byte `sa_family` (`SA.fromNativeMinLen = 1`); with a one-byte buffer that read is
@@ -250,6 +252,50 @@ theorem no_oob_write (a : Addr) (dest : Buf) (n : Nat) (h : n ≤ dest.length) :
   · rw [toNative_eq_encode a dest n (by omega) h]; intro h; cases h
 
 example : toNative (.v6 SA.in6addrAny 0 0 0) [] 0 ≠ .fault := no_oob_write _ _ _ (Nat.le_refl _)
+
+/-! ## `NULL` pointer arguments -/
+
+/-- every entry point handed a `NULL` pointer answers its failure value (NULL / FALSE / 0 / `P_SOCKET_FAMILY_UNKNOWN`);
+    `p_socket_address_to_native` with `addr == NULL` or `dest == NULL` leaves the destination as it was, whatever
+    the other arguments; the setters do nothing -/
+theorem null_arguments (P : Platform) (len : Nat) (port : UInt16) (a : Option Addr) (dest : Option Buf) (x : UInt32) :
+    newFromNativeP none len = .ok none ∧ newP P none port = .ok none ∧
+    toNativeP none dest len = .ok (false, dest) ∧ toNativeP a none len = .ok (false, none) ∧
+    nativeSizeP none = 0 ∧ familyP none = 0 ∧ getAddressP P none = none ∧ portP none = 0 ∧
+    flowInfoP none = 0 ∧ scopeIdP none = 0 ∧ setFlowInfoP none x = none ∧ setScopeIdP none x = none ∧
+    isAnyP none = false ∧ isLoopbackP none = false := by
+  refine ⟨rfl, rfl, ?_, ?_, rfl, rfl, rfl, rfl, rfl, rfl, rfl, rfl, rfl, rfl⟩
+  · cases dest <;> rfl
+  · cases a <;> rfl
+
+/-- on non-`NULL` arguments the entry points are the functions the theorems above are about -/
+theorem nonnull_arguments (P : Platform) (a : Addr) (b : Buf) (s : List UInt8) (n : Nat) (port : UInt16) :
+    newFromNativeP (some b) n = newFromNative b n ∧ newP P (some s) port = new P s port ∧
+    nativeSizeP (some a) = nativeSize a ∧ familyP (some a) = family a ∧ getAddressP P (some a) = some (getAddress P a) ∧
+    isAnyP (some a) = isAny a ∧ isLoopbackP (some a) = isLoopback a ∧
+    toNativeP (some a) (some b) n = (toNative a b n >>= fun r => pure (r.1, some r.2)) :=
+  ⟨rfl, rfl, rfl, rfl, rfl, rfl, rfl, rfl⟩
+
+/-- `p_socket_address_to_native` at pointer level: whenever it answers FALSE — `NULL` address, `NULL` destination,
+    length 0, or a destination that is too small — not a byte of the destination has changed -/
+theorem to_native_false_writes_nothing (a : Option Addr) (dest : Option Buf) (n : Nat)
+    (hn : ∀ d, dest = some d → n ≤ d.length) (d' : Option Buf) (h : toNativeP a dest n = .ok (false, d')) : d' = dest := by
+  cases a with
+  | none => cases dest <;> (simp [toNativeP] at h; exact h.symm)
+  | some a =>
+    cases dest with
+    | none => simp [toNativeP] at h; exact h.symm
+    | some d =>
+      by_cases hs : n < nativeSize a
+      · simp [toNativeP, toNative_small a d n hs] at h; exact h.symm
+      · have := toNative_eq_encode a d n (by omega) (hn d rfl)
+        simp [toNativeP, this] at h
+
+example : toNativeP none (some [1, 2, 3]) 3 = .ok (false, some [1, 2, 3]) ∧
+    toNativeP (some (.v4 #v[1, 2, 3, 4] 80)) (some (List.replicate 15 0xA5)) 15 = .ok (false, some (List.replicate 15 0xA5)) ∧
+    toNativeP (some (.v4 #v[1, 2, 3, 4] 80)) (some (List.replicate 16 0xA5)) 16 =
+      .ok (true, some [2, 0, 0, 80, 1, 2, 3, 4, 0, 0, 0, 0, 0, 0, 0, 0]) := by
+  refine ⟨rfl, by decide, by decide⟩
 
 /-! ## text -/
 
